@@ -30,6 +30,10 @@ class Rebound:
     pass
 
 
+class Refunc:
+    pass
+
+
 class Outer:
     class Inner:
         pass
@@ -87,6 +91,10 @@ def uses_rebound(a):
     return 1
 
 
+def uses_refunc(a):
+    return 1
+
+
 def uses_lib(a):
     return 1
 
@@ -115,6 +123,7 @@ MUTATIONS = {
     "return-class-removed": ("uses_ret1", lambda s: s.replace("class Ret1:\n    pass\n", "").replace("    return Ret1()", "    return 1")),
     "yield-class-removed": ("uses_yld1", lambda s: s.replace("class Yld1:\n    pass\n", "").replace("    yield Yld1()", "    yield 1")),
     "class-name-now-non-type": ("uses_rebound", lambda s: s.replace("class Rebound:\n    pass\n", "Rebound = 5\n")),
+    "class-name-now-function": ("uses_refunc", lambda s: s.replace("class Refunc:\n    pass\n", "def Refunc():\n    return 1\n")),
     "module-removed": ("uses_lib", lambda s: s.replace("from vfstalelib_{id} import LibCls\n", "")),
     "submodule-removed": ("uses_sub", lambda s: s.replace("from vfstalepkg_{id}.sub import SubCls\n", "")),
     "nested-class-removed": ("uses_inner", lambda s: s.replace("    class Inner:\n        pass\n", "    pass\n")),
@@ -160,7 +169,9 @@ def make_rows(mod, id_):
         "uses_arg1": [CallTrace(mod.uses_arg1, {"a": mod.Arg1}, int), CallTrace(mod.uses_arg1, {"a": List[mod.Arg1]}, int)],
         "uses_ret1": [CallTrace(mod.uses_ret1, {}, mod.Ret1)],
         "uses_yld1": [CallTrace(mod.uses_yld1, {}, NoneType, mod.Yld1)],
-        "uses_rebound": [CallTrace(mod.uses_rebound, {"a": mod.Rebound}, int)],
+        "uses_rebound": [CallTrace(mod.uses_rebound, {"a": mod.Rebound}, int), CallTrace(mod.uses_rebound, {"a": List[mod.Rebound]}, int),
+                         CallTrace(mod.uses_rebound, {"a": Optional[mod.Rebound]}, mod.Rebound)],
+        "uses_refunc": [CallTrace(mod.uses_refunc, {"a": List[mod.Refunc]}, int), CallTrace(mod.uses_refunc, {"a": int}, Optional[mod.Refunc])],
         "uses_lib": [CallTrace(mod.uses_lib, {"a": lib.LibCls}, int)],
         "uses_sub": [CallTrace(mod.uses_sub, {"a": Optional[sub.SubCls]}, int)],
         "uses_inner": [CallTrace(mod.uses_inner, {"a": mod.Outer.Inner}, int)],
